@@ -41,6 +41,18 @@ func liEvents(rng *Rng, w *liWorld, bn uint64, pool []common.Hash, wrongV2 bool,
 		}
 		pos += 1 + uint64(rng.Intn(3))
 	}
+	if rng.Chance(12) {
+		// one rollup verified twice in this block, back to the value an earlier block left (another rollup moves in between,
+		// so that the rollup exit root never returns to a recorded one): the second verification is a new value as of its
+		// position in the block although it equals what was committed before the block
+		for _, v := range []struct {
+			rid uint64
+			er  common.Hash
+		}{{1, pool[2]}, {2, common.BytesToHash(rng.Bytes(32))}, {1, pool[1]}} {
+			toks = append(toks, fmt.Sprintf("vb;%d;%d;%d;%s;%s;%s", pos, v.rid, rng.Intn(1000), hx(rng.Bytes(32)), hx0(v.er), hx(rng.Bytes(20))))
+			pos += 1 + uint64(rng.Intn(3))
+		}
+	}
 	// root announcement (V2): correct w.r.t. the tree after this block's updates, or deliberately wrong
 	if rng.Chance(35) || wrongV2 {
 		ref := liBuildRef(append(append([]string{}, w.survivors...), fmt.Sprintf("blk %d %s", bn, strings.Join(toks, " "))))
